@@ -13,6 +13,23 @@ Definition res_match {A} (eqb : A -> A -> bool) (o : obs A) (m : res A) : bool :
   | _, _ => false
   end.
 
+Definition jentry_eqb (a b : string * list N) : bool :=
+  String.eqb (fst a) (fst b) && list_eqb N.eqb (snd a) (snd b).
+Definition yentry_eqb (a b : string * (bool * string)) : bool :=
+  String.eqb (fst a) (fst b) && Bool.eqb (fst (snd a)) (fst (snd b)) && String.eqb (snd (snd a)) (snd (snd b)).
+Definition step_eqb (o : option (list reg * bool)) (m : list reg * bool) : bool :=
+  match o with
+  | Some (l, ok) => list_eqb reg_eqb l (fst m) && Bool.eqb ok (snd m)
+  | None => false
+  end.
+
+Fixpoint steps_match (o : list (option (list reg * bool))) (m : list (list reg * bool)) : bool :=
+  match o, m with
+  | [], [] => true
+  | x :: o', y :: m' => step_eqb x y && steps_match o' m'
+  | _, _ => false
+  end.
+
 Inductive case : Type :=
 (* register, bytes ValueBytes produced, result of ValueFromBytes on them *)
 | CBytesRT (r : reg) (bytes : list N) (back : obs reg)
@@ -20,7 +37,17 @@ Inductive case : Type :=
 | CNewOwn (r : reg) (back : obs reg)
 | CNew (id : string) (v : value) (back : obs reg)
 | CJSON (regs : list reg) (back : obs (list reg))
-| CYAML (regs : list reg) (back : obs (list reg)).
+| CYAML (regs : list reg) (back : obs (list reg))
+(* what the package marshalled: the documents it wrote, as the harness parsed them back
+   with plain JSON / YAML decoders (no package code) *)
+| CMarshalJSON (regs : list reg) (entries : obs (list (string * list N)))
+| CMarshalYAML (regs : list reg) (entries : obs (list (string * (bool * string))))
+(* a YAML document written by the harness: ID -> (quoted?, scalar text), unmarshalled into a
+   fresh variable *)
+| CYamlDoc (entries : list (string * (bool * string))) (back : obs (list reg))
+(* documents unmarshalled one after another into ONE variable that first held [init]:
+   after each call (succeeded?, contents of the variable); [None] = the call panicked *)
+| CSeq (init : list reg) (docs : list doc) (after : list (option (list reg * bool))).
 
 Definition check (c : case) : bool :=
   match c with
@@ -34,6 +61,26 @@ Definition check (c : case) : bool :=
   | CNew id v back => res_match reg_eqb back (new id v)
   | CJSON regs back => res_match (list_eqb reg_eqb) back (json_roundtrip regs)
   | CYAML regs back => res_match (list_eqb reg_eqb) back (yaml_roundtrip regs)
+  | CMarshalJSON regs e => res_match (list_eqb jentry_eqb) e (json_marshal regs)
+  | CMarshalYAML regs e =>
+      (* the document is a mapping: compare as sets of entries with distinct keys *)
+      match e, yaml_marshal regs with
+      | OOk a, ROk b => Nat.eqb (List.length a) (List.length b) &&
+                        forallb (fun x => existsb (yentry_eqb x) b) a &&
+                        forallb (fun x => existsb (yentry_eqb x) a) b
+      | OErr, RErr => true
+      | _, _ => false
+      end
+  | CYamlDoc e back =>
+      match parse_doc (DYaml e) with
+      | Some m => res_match (list_eqb reg_eqb) back m
+      | None => false
+      end
+  | CSeq init docs after =>
+      match unmarshal_seq init docs with
+      | Some m => steps_match after m
+      | None => false
+      end
   end.
 
 Definition mismatches := mismatches_by check.
